@@ -71,6 +71,14 @@ def covered_code_changes(ck):
         from translator import build_front_ir
 
         info = build_front_ir.generate()
+        try:
+            from translator import front_facts
+
+            ff = front_facts.generate()
+            ck.cov["generated_recursive_functions"] = ff["recursive"]
+            ck.cov["generated_intro_facts"] = ff["intro_facts"]
+        except Exception as e:  # noqa: BLE001
+            ck.broken("translator", "translator/front_facts.py could not read src/spox", f"{type(e).__name__}: {e}")
         ck.cov["generated_build_statements"] = info["ir"]
         pinned = json.loads((Path(__file__).parent / "pinned_c03c12_digests.json").read_text())
         changed = sorted(k for k in set(pinned) | set(info["digests"]) if pinned.get(k) != info["digests"].get(k))
